@@ -19,6 +19,14 @@ if [ "$(cat "$VERIF/target/sendsync/.engine-src-hash" 2>/dev/null)" != "$SRC_HAS
   echo "$SRC_HASH" > "$VERIF/target/sendsync/.engine-src-hash"
 fi
 
+for t in mirih; do
+  mkdir -p "$VERIF/target/$t"
+  if [ "$(cat "$VERIF/target/$t/.engine-src-hash" 2>/dev/null)" != "$SRC_HASH" ]; then
+    find "$VERIF/target/$t" -type d -path '*/.fingerprint/arimaa_engine_step-*' -prune -exec rm -rf {} + 2>/dev/null
+    echo "$SRC_HASH" > "$VERIF/target/$t/.engine-src-hash"
+  fi
+done
+
 # ---- stage A ----
 logA="$VERIF/target/build-sendsync.log"
 if ! (cd "$VERIF/sendsync" && CARGO_TARGET_DIR="$VERIF/target/sendsync" cargo build --offline >"$logA" 2>&1); then
